@@ -147,6 +147,15 @@ func TestC17(t *testing.T) {
 		}
 		synctest.Test(t, func(t *testing.T) { c17Run(t, run, sc) })
 	}
+	// two commands around requests that linger between gate and claim (the scenario of C03): neither
+	// has anything to drain, both return at once
+	for k := 0; k < run.N(16, 400); k++ {
+		desc := map[string]any{"part": "two-commands-around-one-request", "k": k}
+		if !run.Mine(n+2000+k, desc) {
+			continue
+		}
+		synctest.Test(t, func(t *testing.T) { c03Double(t, run, k, run.Rand(n+2000+k)) })
+	}
 	// redeploys onto the very targets the service already has, then a command that lets go of them
 	for k := 0; k < run.N(24, 600); k++ {
 		desc := map[string]any{"part": "redeploy-onto-the-same-targets", "k": k}
